@@ -346,7 +346,10 @@ class FileInfo(os.PathLike):
         times = []
         for i in range(2):
             if json_dict["times"][i] is None:
-                times.append([None])
+                # to_json_dict never writes a time as null; such an entry
+                # is malformed and must not end up in the cache
+                raise ValueError(
+                    "The times of a cached FileInfo must not be null!")
             else:
                 times.append(
                     datetime.strptime(
